@@ -1036,9 +1036,16 @@ class Component(composites.Composite, metaclass=ComponentType):
         if self.parent:
             # changes in dimensions can affect cached variables such as pitch
             self.parent.cached = {}
-            for c in self.getLinkedComponents():
-                # no clearCache since parent already updated derivedMustUpdate in self.clearCache()
-                c.p.volume = None
+            # links can be chained (a.x <- b.y <- c.z): everything downstream of this component depends on it
+            downstream = [self]
+            frontier = [self]
+            while frontier:
+                for c in frontier.pop().getLinkedComponents():
+                    if not any(c is d for d in downstream):
+                        downstream.append(c)
+                        frontier.append(c)
+                        # no clearCache since parent already updated derivedMustUpdate in self.clearCache()
+                        c.p.volume = None
 
     def getLinkedComponents(self):
         """Find other components that are linked to this component."""
